@@ -35,6 +35,20 @@ uintptr_t sch_data_base(void) { return (uintptr_t) __data_start; }
 int sch_self(void) { return self; }
 static int in_data(const void *a) { return (const char *) a >= __data_start && (const char *) a < _end; }
 
+/* Written-location profile.  A load can only conflict with a store, so loads of locations that nothing ever stores to (constant tables that
+ * the linker happens to place in .data, flags set before the threads start ...) need not be scheduling points.  The explorer records, in one
+ * sequential run of sodium_init + set-up + every operation (sch_profile(1)), every .data/.bss byte written; afterwards loads of never-written
+ * bytes are skipped.  Every store remains a scheduling point; a store to a byte outside the profile is counted (profile_miss) and the byte is
+ * added, so the reduction can be audited: with zero misses the explored schedules are exactly those of the unreduced point set. */
+#include <sys/mman.h>
+static uint8_t *wmap; static int profiling;
+void sch_profile_alloc(void) { size_t n = (size_t) (_end - __data_start); wmap = mmap(NULL, n, PROT_READ | PROT_WRITE, MAP_SHARED | MAP_ANONYMOUS, -1, 0); if (wmap == MAP_FAILED) wmap = NULL; }
+void sch_profile(int on) { profiling = on; }
+static void wmark(const void *a, size_t n) { size_t off = (size_t) ((const char *) a - __data_start), lim = (size_t) (_end - __data_start); if (wmap) { if (off + n > lim) n = lim - off; memset(wmap + off, 1, n); } }
+static int wany(const void *a, size_t n) { size_t off = (size_t) ((const char *) a - __data_start), lim = (size_t) (_end - __data_start), i; if (!wmap) return 1; if (off + n > lim) n = lim - off; for (i = 0; i < n; i++) if (wmap[off + i]) return 1; return 0; }
+static int wall(const void *a, size_t n) { size_t off = (size_t) ((const char *) a - __data_start), lim = (size_t) (_end - __data_start), i; if (!wmap) return 1; if (off + n > lim) n = lim - off; for (i = 0; i < n; i++) if (!wmap[off + i]) return 0; return 1; }
+static void on_store(const void *a, size_t n) { if (profiling) wmark(a, n); else if (wmap && active && !wall(a, n)) { sch_tr->profile_miss++; wmark(a, n); } }
+
 static void finish(int status) { sch_tr->status = status; sch_tr->npoints = pos; _exit(0); }
 
 static int overlap(const pend_t *a, const pend_t *b) { return a->off < b->off + b->size && b->off < a->off + a->size; }
@@ -157,27 +171,28 @@ int __wrap_pthread_mutex_unlock(pthread_mutex_t *m)
 
 /* ---------------- instrumentation callbacks ---------------- */
 #define PC ((uintptr_t) __builtin_return_address(0))
-#define RD(n) void __tsan_read##n(void *a) { if (in_data(a)) yield_point(PK_ACCESS, a, n, 0, PC); } void __tsan_unaligned_read##n(void *a) { if (in_data(a)) yield_point(PK_ACCESS, a, n, 0, PC); }
-#define WR(n) void __tsan_write##n(void *a) { if (in_data(a)) yield_point(PK_ACCESS, a, n, 1, PC); } void __tsan_unaligned_write##n(void *a) { if (in_data(a)) yield_point(PK_ACCESS, a, n, 1, PC); }
+#define RD(n) void __tsan_read##n(void *a) { if (in_data(a) && wany(a, n)) yield_point(PK_ACCESS, a, n, 0, PC); } void __tsan_unaligned_read##n(void *a) { if (in_data(a) && wany(a, n)) yield_point(PK_ACCESS, a, n, 0, PC); }
+#define WR(n) void __tsan_write##n(void *a) { if (in_data(a)) { on_store(a, n); yield_point(PK_ACCESS, a, n, 1, PC); } } void __tsan_unaligned_write##n(void *a) { if (in_data(a)) { on_store(a, n); yield_point(PK_ACCESS, a, n, 1, PC); } }
 RD(1) RD(2) RD(4) RD(8) RD(16) WR(1) WR(2) WR(4) WR(8) WR(16)
 void __tsan_init(void) {}
 void __tsan_func_entry(void *pc) { (void) pc; }
 void __tsan_func_exit(void) {}
 void __tsan_atomic_thread_fence(int mo) { (void) mo; __atomic_thread_fence(__ATOMIC_SEQ_CST); }
-void __tsan_read_range(void *a, unsigned long n) { if (in_data(a)) yield_point(PK_RANGE, a, n, 0, PC); }
-void __tsan_write_range(void *a, unsigned long n) { if (in_data(a)) yield_point(PK_RANGE, a, n, 1, PC); }
+void __tsan_read_range(void *a, unsigned long n) { if (in_data(a) && wany(a, n)) yield_point(PK_RANGE, a, n, 0, PC); }
+void __tsan_write_range(void *a, unsigned long n) { if (in_data(a)) { on_store(a, n); yield_point(PK_RANGE, a, n, 1, PC); } }
 void __tsan_vptr_update(void **a, void *b) { (void) a; (void) b; }
 void __tsan_vptr_read(void **a) { (void) a; }
 
 void *__real_memcpy(void *, const void *, size_t); void *__real_memmove(void *, const void *, size_t); void *__real_memset(void *, int, size_t);
-void *__wrap_memcpy(void *d, const void *s, size_t n) { if (active && self >= 0 && n) { if (in_data(s)) yield_point(PK_RANGE, s, n, 0, PC); if (in_data(d)) yield_point(PK_RANGE, d, n, 1, PC); } return __real_memcpy(d, s, n); }
-void *__wrap_memmove(void *d, const void *s, size_t n) { if (active && self >= 0 && n) { if (in_data(s)) yield_point(PK_RANGE, s, n, 0, PC); if (in_data(d)) yield_point(PK_RANGE, d, n, 1, PC); } return __real_memmove(d, s, n); }
-void *__wrap_memset(void *d, int c, size_t n) { if (active && self >= 0 && n && in_data(d)) yield_point(PK_RANGE, d, n, 1, PC); return __real_memset(d, c, n); }
+void *__wrap_memcpy(void *d, const void *s, size_t n) { if (n && in_data(d)) on_store(d, n); if (active && self >= 0 && n) { if (in_data(s) && wany(s, n)) yield_point(PK_RANGE, s, n, 0, PC); if (in_data(d)) yield_point(PK_RANGE, d, n, 1, PC); } return __real_memcpy(d, s, n); }
+void *__wrap_memmove(void *d, const void *s, size_t n) { if (n && in_data(d)) on_store(d, n); if (active && self >= 0 && n) { if (in_data(s) && wany(s, n)) yield_point(PK_RANGE, s, n, 0, PC); if (in_data(d)) yield_point(PK_RANGE, d, n, 1, PC); } return __real_memmove(d, s, n); }
+void *__wrap_memset(void *d, int c, size_t n) { if (n && in_data(d)) on_store(d, n); if (active && self >= 0 && n && in_data(d)) yield_point(PK_RANGE, d, n, 1, PC); return __real_memset(d, c, n); }
 
 /* ---------------- deterministic environment ---------------- */
 ssize_t __wrap_getrandom(void *buf, size_t len, unsigned flags)
 {
     size_t i; (void) flags;
+    if (len && in_data(buf)) on_store(buf, len);
     if (active && self >= 0 && in_data(buf)) yield_point(PK_RANGE, buf, len, 1, PC);    /* the kernel writes the caller's buffer */
     for (i = 0; i < len; i++) ((unsigned char *) buf)[i] = (unsigned char) (0xC5 ^ (i * 29));
     return (ssize_t) len;
